@@ -122,7 +122,9 @@ func historyTopologies() []Topology {
 	return out
 }
 
-func allTopologies() []Topology { return append(append([]Topology(nil), topologies...), historyTopologies()...) }
+func allTopologies() []Topology {
+	return append(append([]Topology(nil), topologies...), historyTopologies()...)
+}
 
 var topologies = []Topology{
 	{Name: "tsdb-noext", TSDB: []string{}},
